@@ -1137,6 +1137,55 @@ def runlib_written_files(ctx):
     return n, problems
 
 
+def record_stop_other_key(ctx):
+    """the signature check in_toto_record_stop performs itself: a preliminary link signed by key B does not pass for
+    key A - whatever form the key argument takes (signer, gpg key id) and even when the file carries A's name.
+    -> (cases, problems)"""
+    import shutil
+    import in_toto.runlib as rl
+    from harness import fstree
+    from harness.chain import quiet
+    problems, n = [], 0
+    g = hk.Gpg(ctx.work)
+    try:
+        ka, kb = hk.sslib_key("ed25519", 0), hk.sslib_key("ed25519", 1)
+        forms = [("signer", dict(signer=kb.signer), dict(signer=ka.signer), kb.keyid, ka.keyid),
+                 ("gpg_keyid", dict(gpg_keyid=hk.GPG_MASTER2, gpg_home=g.home), dict(gpg_keyid=hk.GPG_MASTER, gpg_home=g.home),
+                  hk.GPG_MASTER2, hk.GPG_SIGN_SUB),
+                 ("gpg_keyid", dict(gpg_keyid=hk.GPG_MASTER, gpg_home=g.home), dict(gpg_keyid=hk.GPG_MASTER2, gpg_home=g.home),
+                  hk.GPG_SIGN_SUB, hk.GPG_MASTER2)]
+        for form, start_kw, stop_kw, kid_b, kid_a in forms:
+            for dsse in ((False, True) if form == "signer" else (False,)):
+                for renamed in (False, True):
+                    wd = os.path.join(ctx.work, "c09stop")
+                    shutil.rmtree(wd, ignore_errors=True)
+                    os.makedirs(wd)
+                    open(os.path.join(wd, "a.txt"), "w").write("a\n")
+                    n += 1
+                    what = "%s/%s/%s" % (form, "dsse" if dsse else "metablock", "file renamed to the other key's id" if renamed else "file as written")
+                    with fstree.in_dir(wd), quiet():
+                        rl.in_toto_record_start("st", ["."], use_dsse=dsse, **start_kw)
+                        pre = ".st.%s.link-unfinished" % kid_b[:8]
+                        if not os.path.exists(pre):
+                            problems.append("%s: record start did not write %s (directory: %s)" % (what, pre, sorted(os.listdir("."))))
+                            continue
+                        if renamed:
+                            os.rename(pre, ".st.%s.link-unfinished" % kid_a[:8])
+                        raised = None
+                        try:
+                            rl.in_toto_record_stop("st", ["."], **stop_kw)
+                        except Exception as e:  # noqa
+                            raised = type(e).__name__
+                        finals = sorted(f for f in os.listdir(".") if f.endswith(".link"))
+                        if raised is None or finals:
+                            problems.append("%s: record stop for key %s.. finished a step whose preliminary link is signed by key %s.. only "
+                                            "(%s; final links %s)" % (what, kid_a[:8], kid_b[:8],
+                                                                      "no error" if raised is None else raised, finals))
+    finally:
+        g.close()
+    return n, problems
+
+
 def object_history(ctx):
     """one in-memory Metablock signed / verified, then its payload edited IN PLACE, then verified / signed again:
     every signature check and every signature is about the content the object holds at that moment.
@@ -1209,6 +1258,10 @@ def run(ctx):
     for pr in rl_problems[:3]:
         violations += 1
         ctx.violation("metadata written by the recording entry points: " + pr, {"kind": "runlib_written_files", "what": pr})
+    ok_cases, ok_problems = record_stop_other_key(ctx)
+    for pr in ok_problems[:3]:
+        violations += 1
+        ctx.violation("record stop with another key than record start: " + pr, {"kind": "record_stop_other_key", "what": pr})
 
     # (a) (b)
     vals, impl_c = stream_canon(ctx, 12000 if thorough else 2500)
@@ -1321,6 +1374,7 @@ def run(ctx):
             "Signature.to_dict, key-dict shapes",
             "extraction + driver; %d+%d+%d requests re-evaluated by vm_compute in coqc" % (kn, kn2, kn3)],
         "evaluations": evaluations, "distinct_nontrivial": distinct,
+        "histories": {"object_history": oh_cases, "runlib_written_files": rl_cases, "record_stop_other_key": ok_cases},
         "rule": "(a) random JSON: nesting to depth 120, BMP/astral text, quotes, backslashes, controls, lone surrogates, ints to 4299 digits, "
                 "bool next to 0/1, None, floats, up to 120 keys in random insertion order + re-shuffled copies; random Link/Layout objects with "
                 "fields supplied in random order; (b) random payload types and payloads; (c) sign with 1-3 real keys, dump compact/indented/"
@@ -1364,8 +1418,9 @@ def replay(ctx, obj):
     model = core.Model()
     init_pool(ctx)
     bad = False
-    if kind in ("runlib_written_files", "locale_roundtrip", "object_history"):
+    if kind in ("runlib_written_files", "locale_roundtrip", "object_history", "record_stop_other_key"):
         problems = (runlib_written_files(ctx)[1] if kind == "runlib_written_files" else
+                    record_stop_other_key(ctx)[1] if kind == "record_stop_other_key" else
                     object_history(ctx)[1] if kind == "object_history" else locale_roundtrip(ctx))
         for pr in problems[:5]:
             print("  -> " + pr)
